@@ -13,6 +13,9 @@ class LazyBodies:
         self._file = {}
         with open(path) as fh:
             for line in fh:
+                # rustc prints `core` through a visible re-export of a dependency (bitflags::core::...)
+                if "bitflags::core::" in line:
+                    line = line.replace("bitflags::core::", "core::")
                 # every line starts with {"def":"<path>","dk":...,"file":"<file>"
                 i = line.index('","dk":')
                 d = json.loads(line[7:i + 1])
